@@ -7,7 +7,7 @@
 From Coq Require Import ZArith List Bool Arith String Lia.
 From Coq Require Import Permutation.
 From PyxelV Require Import Model.ParamSpace Proofs.ParamSpace Proofs.ParamSpaceNames Proofs.ParamSpaceLabels
-                           Proofs.ParamSpaceObserve Proofs.ParamSpaceDask.
+                           Proofs.ParamSpaceObserve Proofs.ParamSpaceDask Proofs.ParamSpaceHist.
 From PyxelGen Require Import Gen_C05.
 Import ListNotations.
 Local Open Scope string_scope.
@@ -336,6 +336,59 @@ Theorem C05_dask_sequential_partial : forall get ps p,
 Proof. exact (dask_seq_cells_one src_cfg). Qed.
 Print Assumptions C05_dask_sequential_partial.
 
+(* ------------------------------------------------------------------------------------ histories on one object
+
+   The same Observation object (one parameter-mode object, one detector, one pipeline) is run, its configuration is
+   edited through its public attributes -- a configured value of the detector or of a model argument (ESlot), the
+   parameter list of the mode object: value lists, enabled flags, order, members (EParams), the custom table and its
+   columns (ETable), with_dask (EDask), the mode (EMode) -- and it is run again, any number of times, in any order.
+   `hist_run` is the object as coded (st = the dict it keeps in Observation.parameter_types, the only attribute the
+   run path writes: the translator fails closed on any other); `run_confs` lists the configuration at the time of
+   every Run; `observe_conf` is what a NEW object with that configuration does -- the subject of every theorem above.
+
+   For every op sequence and every past of the object: run number k does exactly what a new object configured like
+   the object at that moment does -- same executed runs, same labels, same data.  (Before the repair of
+   Observation._get_parameter_types this was false: Proofs/ParamSpaceHist.v history_stale_witness, finding
+   C05-stale-parameter-types.) *)
+Theorem C05_history : forall ops st c,
+  hist_run src_cfg st c ops = map (observe_conf src_cfg) (run_confs c ops).
+Proof. exact (history_correct src_cfg eq_refl). Qed.
+Print Assumptions C05_history.
+
+(* a new object has no past, whatever the source says about parameter_types *)
+Theorem C05_history_new_object : forall cf c, observe_conf_st cf [] c = observe_conf cf c.
+Proof. exact observe_conf_new_object. Qed.
+Print Assumptions C05_history_new_object.
+
+(* Sequential mode inside a history: run number k steps every parameter around the values configured AT THAT TIME
+   (f_slots of the configuration at run k) -- executed runs, labels and data. *)
+Theorem C05_history_sequential : forall ops st c k c',
+  nth_error (run_confs c ops) k = Some c' ->
+  f_mode c' = Sequential -> f_dask c' = false ->
+  existsb has_ph (enabled (f_params c')) = false ->
+  let runs := sequential_runs (default_of (f_slots c')) (f_params c') in
+  exists names oc,
+    dim_names src_cfg (unique (map p_key (enabled (f_params c')))) = Some names /\
+    nth_error (hist_run src_cfg st c ops) k = Some (Some oc) /\
+    oc_runs oc = map (fun r => received (f_slots c') (r_params r)) runs /\
+    map r_params runs = spec_sequential_params (default_of (f_slots c')) (enabled (f_params c')) /\
+    (forall r, In r runs ->
+       lookup (custom_label names (hd 0 (r_index r)) (r_params r)) (oc_result oc)
+       = Some (data_of (f_slots c') (r_params r))) /\
+    (forall l d, In (l, d) (oc_result oc) ->
+       exists r, In r runs /\ l = custom_label names (hd 0 (r_index r)) (r_params r)
+                 /\ d = data_of (f_slots c') (r_params r)) /\
+    labels_nodup (map fst (oc_result oc)) = true.
+Proof. exact (history_sequential src_cfg eq_refl eq_refl eq_refl). Qed.
+Print Assumptions C05_history_sequential.
+
+(* an edited configured value is what the next run steps around *)
+Theorem C05_history_edit_default : forall slots k v k',
+  default_of (override slots k v) k' =
+  if String.eqb k k' then (match dict_get k' slots with Some _ => v | None => Sc 0 end) else default_of slots k'.
+Proof. exact default_of_override. Qed.
+Print Assumptions C05_history_edit_default.
+
 (* ------------------------------------------------------------------------------------ non-vacuity *)
 
 Definition ex_ps : list param :=
@@ -435,3 +488,30 @@ Example ex_dask_custom_columns :
   dask_custom_row cfg_repaired (enabled ex_custom) [1; 2; 3; 4]%Z 0 =
   [("k.a", Sc 1); ("k.v", Vec [2; 3]%Z); ("k.b", Sc 4)]%Z.
 Proof. vm_compute. reflexivity. Qed.
+
+(* a history: sequential sweep of a and v; run; the configured value of v is edited; run again *)
+Definition ex_hist_conf : conf :=
+  mkConf Sequential ex_ps [("pipeline.charge_collection.m1.arguments.a", Sc 8);
+                           ("pipeline.charge_collection.m1.arguments.v", Vec [8; 8]%Z)] [] None false.
+Definition ex_hist_ops : list hop :=
+  [HRun; HEdit (ESlot "pipeline.charge_collection.m1.arguments.v" (Vec [40; 48]%Z)); HRun].
+
+(* the hypotheses of C05_history_sequential hold for the second run, and that run gives v its NEW configured value
+   while a is stepped (first executed run: a = 1.0 (8/8), v = (5.0, 6.0)) *)
+Example ex_history_second_run_sees_edit :
+  (exists c', nth_error (run_confs ex_hist_conf ex_hist_ops) 1 = Some c' /\ f_mode c' = Sequential /\
+              f_dask c' = false /\ existsb has_ph (enabled (f_params c')) = false) /\
+  option_map (option_map (fun oc => hd [] (oc_runs oc))) (nth_error (hist_run cfg_all_repaired [] ex_hist_conf ex_hist_ops) 1)
+  = Some (Some [Sc 8; Vec [40; 48]%Z]) /\
+  option_map (option_map (fun oc => hd [] (oc_runs oc))) (nth_error (hist_run cfg_all_repaired [] ex_hist_conf ex_hist_ops) 0)
+  = Some (Some [Sc 8; Vec [8; 8]%Z]).
+Proof. split; [eexists; repeat split; reflexivity | vm_compute; auto]. Qed.
+
+(* the statement of C05_history has content: for the source configuration of the unrepaired tree it is false *)
+Example ex_history_stale_types_differs :
+  hist_run cfg_stale_types [] (wit_conf false) wit_ops_disable
+  <> map (observe_conf cfg_stale_types) (run_confs (wit_conf false) wit_ops_disable).
+Proof. intros E. vm_compute in E. discriminate E. Qed.
+
+Example ex_src_cfg_types_fresh : cf_types_fresh src_cfg = true.
+Proof. reflexivity. Qed.
